@@ -44,6 +44,11 @@ Proof.
 Qed.
 Lemma normal_ok size h vs h2 c : normal size h = Ok (vs, h2, c) -> c = [DNormal size vs].
 Proof. unfold normal. destruct h as [|[] r]; try discriminate. intro H; inversion H; reflexivity. Qed.
+Lemma choice1_ok n h i h2 c : choice1 n h = Ok (i, h2, c) -> c = [DChoice1 n i].
+Proof.
+  unfold choice1. destruct (n <=? 0); [discriminate|].
+  destruct h as [|[] r]; try discriminate. intro H; inversion H; reflexivity.
+Qed.
 Lemma one_over_ok n h q h2 c : one_over n h = Ok (q, h2, c) -> n <> 0 /\ q = (1 / inject_Z n)%Q /\ h2 = h /\ c = [].
 Proof.
   unfold one_over. destruct (n =? 0) eqn:E; [discriminate|]. intro H. apply ret_ok in H. apply Z.eqb_neq in E. tauto.
@@ -229,17 +234,37 @@ Proof.
   do 5 eexists. split; [eassumption|]. split; reflexivity.
 Qed.
 
+(* the single-pass at-least-one correction: ks' is ks, or ks with one entry set to 1 when ks is all zero;
+   c is the extra call made *)
+Definition fixup_of (n : Z) (ks ks' : list Z) (c : list draw) : Prop :=
+  (all_zero ks = false /\ ks' = ks /\ c = []) \/
+  (all_zero ks = true /\ exists i, ks' = set_at (Z.to_nat i) 1 ks /\ c = [DChoice1 n i]).
+Lemma fix_empty_spec n ks h ks' h2 c : fix_empty n ks h = Ok (ks', h2, c) -> fixup_of n ks ks' c.
+Proof.
+  unfold fix_empty, fixup_of. destruct (all_zero ks); intro H; minv; subst.
+  - right. split; [reflexivity|]. match goal with H : choice1 _ _ = Ok _ |- _ => apply choice1_ok in H end. subst.
+    eexists. rewrite app_nil_r. split; reflexivity.
+  - left. auto.
+Qed.
+Lemma fixup_is_fixup n ks ks' c : fixup_of n ks ks' c -> Forall is_fixup c.
+Proof. intros [(_ & _ & ->)|(_ & i & _ & ->)]; repeat constructor. Qed.
+
 Lemma sample_indices_sp_spec s bl h r h' calls :
   sample_indices s bl true h = Ok (r, h', calls) ->
-  exists cn h1 calls1 ks1 ks2,
+  exists cn h1 calls1 ks1 ks2 ks1' ks2' c1 c2,
     sample_counts s bl h = Ok (cn, h1, calls1) /\ nb_hard_pos s <> 0 /\ nb_hard_neg s <> 0 /\
-    calls = calls1 ++ [sp_call (nb_hard_pos s) (c_hard_pos cn) ks1; sp_call (nb_hard_neg s) (c_hard_neg cn) ks2] /\
-    r = mkSidx (repeat_idx 0 ks1) (repeat_idx 0 ks2) (c_easy_pos cn) (c_easy_neg cn).
+    calls = calls1 ++ [sp_call (nb_hard_pos s) (c_hard_pos cn) ks1; sp_call (nb_hard_neg s) (c_hard_neg cn) ks2]
+                   ++ (c1 ++ c2) /\
+    fixup_of (nb_hard_pos s) ks1 ks1' c1 /\ fixup_of (nb_hard_neg s) ks2 ks2' c2 /\
+    r = mkSidx (repeat_idx 0 ks1') (repeat_idx 0 ks2') (c_easy_pos cn) (c_easy_neg cn).
 Proof.
   unfold sample_indices. intro H. minv. subst.
   repeat match goal with H : one_over _ _ = Ok _ |- _ => apply one_over_ok in H; destruct H as (? & ? & ? & ?) end. subst.
   repeat match goal with H : single_pass_sampling _ _ _ _ = Ok _ |- _ => apply single_pass_sampling_ok in H end. subst.
-  do 5 eexists. split; [eassumption|]. repeat split; auto.
+  repeat match goal with H : fix_empty _ _ _ = Ok _ |- _ => apply fix_empty_spec in H end.
+  do 9 eexists. split; [eassumption|]. split; [assumption|]. split; [assumption|].
+  split; [|split; [eassumption|split; [eassumption|reflexivity]]].
+  cbn [app]. rewrite app_nil_r. reflexivity.
 Qed.
 
 (* ---------- Scores.__init__ ---------- *)
@@ -374,18 +399,64 @@ Proof. eapply Forall_impl; [|apply repeat_idx_range]. unfold in_range. simpl. in
 Lemma sp_call_len size n ks : draw_ok (sp_call size n ks) -> len ks = size.
 Proof. unfold sp_call. destruct (n <? 100); simpl; tauto. Qed.
 
+Lemma sp_call_nonneg size n ks : draw_ok (sp_call size n ks) -> Forall (fun k => 0 <= k) ks.
+Proof.
+  unfold sp_call. destruct (n <? 100); simpl; intros [_ H]; [|exact H].
+  eapply Forall_impl; [|exact H]. simpl. intros; lia.
+Qed.
+Lemma set_at_len i v ks : len (set_at i v ks) = len ks.
+Proof.
+  unfold len. f_equal. revert i. induction ks as [|k r IH]; intros [|i]; simpl; auto.
+Qed.
+Lemma repeat_idx_nonempty i ks :
+  all_zero ks = false -> Forall (fun k => 0 <= k) ks -> 1 <= len (repeat_idx i ks).
+Proof.
+  revert i. induction ks as [|k r IH]; intros i Hz Hn; [discriminate|].
+  inversion Hn as [|? ? Hk Hr]; subst. simpl in Hz. simpl repeat_idx. rewrite len_app.
+  pose proof (len_nonneg (repeat_idx (i + 1) r)). pose proof (len_nonneg (repeat i (Z.to_nat k))).
+  destruct (Z.eqb_spec 0 k) as [<-|Hk0].
+  - simpl in Hz. specialize (IH (i + 1) Hz Hr). lia.
+  - unfold len at 1. rewrite repeat_length. lia.
+Qed.
+Lemma repeat_idx_set_nonempty i j ks : (j < length ks)%nat -> 1 <= len (repeat_idx i (set_at j 1 ks)).
+Proof.
+  revert i j. induction ks as [|k r IH]; intros i j Hj; simpl in Hj; [lia|].
+  destruct j as [|j]; cbn [set_at repeat_idx]; rewrite len_app.
+  - pose proof (len_nonneg (repeat_idx (i + 1) r)). change (Z.to_nat 1) with 1%nat. unfold len at 1. cbn [repeat length]. lia.
+  - pose proof (len_nonneg (repeat i (Z.to_nat k))). specialize (IH (i + 1) j ltac:(lia)). lia.
+Qed.
+Lemma fixup_len n ks ks' c : fixup_of n ks ks' c -> len ks' = len ks.
+Proof. intros [(_ & -> & _)|(_ & i & -> & _)]; [reflexivity|apply set_at_len]. Qed.
+Lemma fixup_nonempty ks ks' c i0 :
+  fixup_of (len ks) ks ks' c -> Forall draw_ok c -> Forall (fun k => 0 <= k) ks -> 1 <= len (repeat_idx i0 ks').
+Proof.
+  intros [(Hz & -> & _)|(_ & i & -> & ->)] Hok Hn.
+  - now apply repeat_idx_nonempty.
+  - inversion Hok as [|? ? Hi _]; subst. simpl in Hi. unfold in_range, len in Hi.
+    apply repeat_idx_set_nonempty. lia.
+Qed.
+
 Lemma sp_idx_ok s bl h r h1 calls :
   sample_indices s bl true h = Ok (r, h1, calls) -> Forall draw_ok calls ->
   exists cn h0 calls0 ks1 ks2, sample_counts s bl h = Ok (cn, h0, calls0) /\ Forall draw_ok calls0 /\
     pos_idx r = repeat_idx 0 ks1 /\ neg_idx r = repeat_idx 0 ks2 /\ len ks1 = len (pos s) /\ len ks2 = len (neg s) /\
     0 < len (pos s) /\ 0 < len (neg s) /\
-    s_easy_pos r = c_easy_pos cn /\ s_easy_neg r = c_easy_neg cn.
+    s_easy_pos r = c_easy_pos cn /\ s_easy_neg r = c_easy_neg cn /\
+    1 <= len (pos_idx r) /\ 1 <= len (neg_idx r).
 Proof.
-  intros H Hok. destruct (sample_indices_sp_spec _ _ _ _ _ _ H) as (cn & h0 & calls0 & ks1 & ks2 & Hc & Np & Nn & -> & ->).
-  exists cn, h0, calls0, ks1, ks2. split; [exact Hc|]. split; [eapply Forall_app_l; eauto|].
-  apply Forall_app_r, Forall_two in Hok. destruct Hok as [O1 O2].
+  intros H Hok.
+  destruct (sample_indices_sp_spec _ _ _ _ _ _ H)
+    as (cn & h0 & calls0 & ks1 & ks2 & ks1' & ks2' & c1 & c2 & Hc & Np & Nn & -> & F1 & F2 & ->).
+  exists cn, h0, calls0, ks1', ks2'. split; [exact Hc|]. split; [eapply Forall_app_l; eauto|].
+  apply Forall_app_r in Hok. pose proof (Forall_app_r _ _ _ Hok) as Hfix. apply Forall_app_l, Forall_two in Hok.
+  destruct Hok as [O1 O2]. pose proof (sp_call_nonneg _ _ _ O1) as N1. pose proof (sp_call_nonneg _ _ _ O2) as N2.
   apply sp_call_len in O1, O2. unfold nb_hard_pos, nb_hard_neg in *.
-  pose proof (len_nonneg (pos s)). pose proof (len_nonneg (neg s)). simpl. repeat split; auto; lia.
+  pose proof (fixup_len _ _ _ _ F1) as L1. pose proof (fixup_len _ _ _ _ F2) as L2.
+  rewrite <- O1 in F1. rewrite <- O2 in F2.
+  pose proof (fixup_nonempty _ _ _ 0 F1 (Forall_app_l _ _ _ Hfix) N1).
+  pose proof (fixup_nonempty _ _ _ 0 F2 (Forall_app_r _ _ _ Hfix) N2).
+  pose proof (len_nonneg (pos s)). pose proof (len_nonneg (neg s)). cbn [pos_idx neg_idx s_easy_pos s_easy_neg].
+  repeat split; auto; lia.
 Qed.
 
 (* ---- membership (smoothing off) ---- *)
@@ -491,7 +562,7 @@ Theorem bs_single_pass_by_label_easy c s h b rest calls :
   easy_pos b = easy_pos s /\ easy_neg b = easy_neg s.
 Proof.
   intros Hr Hs H. destruct (bs_single_pass_spec _ _ _ _ _ _ Hr H) as (r & h1 & Hi & _ & ->).
-  destruct (sample_indices_sp_spec _ _ _ _ _ _ Hi) as (cn & h0 & c0 & ks1 & ks2 & Hc & _ & _ & _ & ->).
+  destruct (sample_indices_sp_spec _ _ _ _ _ _ Hi) as (cn & h0 & c0 & ks1 & ks2 & ks1' & ks2' & c1 & c2 & Hc & _ & _ & _ & _ & _ & ->).
   unfold is_by_label in Hc. rewrite Hs in Hc. apply sample_counts_true_spec in Hc. destruct Hc as (_ & _ & ->).
   unfold mk_scores. simpl. auto.
 Qed.
@@ -517,28 +588,15 @@ Proof.
   exists pi, ni. auto 10.
 Qed.
 
-(* ---- refutation: explicit single pass can drop a whole class ---- *)
-Definition sp_cfg : config := mkConfig MSinglePass SNone false None.
-Definition sp_src : scores := mk_scores [(-11)#1; (-11)#1]%Q [962#1]%Q 0 0 Pos Pos false.
-(* the history NumPy produced for np.random.seed(6) on this object *)
-Definition sp_hist : list draw :=
-  [DBinom 3 (Qmake 6004799503160661 9007199254740992) 1; DBinom 1 (0#1) 0; DBinom 2 (0#1) 0;
-   DBinomVec 2 1 (1#2) [0; 0]; DBinomVec 1 2 (1#1) [2]].
-
-Theorem single_pass_nonempty_refuted :
-  exists c s h b rest calls,
-    sampling_method c = MSinglePass /\ wf s /\ 0 < len (pos s) /\ 0 < len (neg s) /\
-    bootstrap_sample c s h = Ok (b, rest, calls) /\ Forall draw_ok calls /\ rest = [] /\
-    pos b = [].
+(* ---- single pass: at least one scored sample per class (after the repair of the multiplicities) ---- *)
+Theorem bs_single_pass_nonempty c s h b rest calls :
+  resolve_method s c = MSinglePass ->
+  bootstrap_sample c s h = Ok (b, rest, calls) -> Forall draw_ok calls ->
+  1 <= len (pos b) /\ 1 <= len (neg b) /\ 0 < len (pos s) /\ 0 < len (neg s).
 Proof.
-  exists sp_cfg, sp_src, sp_hist.
-  eexists. eexists. eexists.
-  split; [reflexivity|]. split; [apply mk_scores_unsorted_wf|].
-  split; [reflexivity|]. split; [reflexivity|].
-  split; [vm_compute; reflexivity|].
-  split.
-  - repeat constructor; try (vm_compute; congruence); try (intro Hq; vm_compute in Hq; discriminate).
-  - split; reflexivity.
+  intros Hr H Hok. destruct (bs_single_pass_spec _ _ _ _ _ _ Hr H) as (r & h1 & Hi & _ & ->).
+  destruct (sp_idx_ok _ _ _ _ _ _ Hi Hok) as (cn & h0 & c0 & ks1 & ks2 & _ & _ & _ & _ & _ & _ & Pp & Pn & _ & _ & N1 & N2).
+  unfold mk_scores. cbn [pos neg]. rewrite !take_idx_len. auto.
 Qed.
 
 (* ---------- rational facts about the ratios handed to the generator ---------- *)
@@ -610,7 +668,8 @@ Qed.
 Theorem mean_parameters_index s bl sp h r h' calls :
   sample_indices s bl sp h = Ok (r, h', calls) -> 0 < len (pos s) -> 0 < len (neg s) ->
   exists cn h1 calls1 dp dn,
-    sample_counts s bl h = Ok (cn, h1, calls1) /\ calls = calls1 ++ [dp; dn] /\
+    sample_counts s bl h = Ok (cn, h1, calls1) /\
+    (exists extra, calls = calls1 ++ [dp; dn] ++ extra /\ Forall is_fixup extra /\ (sp = false -> extra = [])) /\
     (draw_mean dp == inject_Z (c_hard_pos cn) / inject_Z (len (pos s)))%Q /\
     (draw_mean dn == inject_Z (c_hard_neg cn) / inject_Z (len (neg s)))%Q /\
     (bl = true -> (draw_mean dp == 1)%Q /\ (draw_mean dn == 1)%Q).
@@ -622,12 +681,15 @@ Proof.
   assert (One : forall n, 0 < n -> (inject_Z n / inject_Z n == 1)%Q).
   { intros n Hn. field. apply injZ_neq0. lia. }
   destruct sp.
-  - destruct (sample_indices_sp_spec _ _ _ _ _ _ H) as (cn & h1 & calls1 & ks1 & ks2 & Hc & Np & Nn & -> & _).
-    exists cn, h1, calls1. do 2 eexists. split; [exact Hc|]. split; [reflexivity|].
+  - destruct (sample_indices_sp_spec _ _ _ _ _ _ H) as (cn & h1 & calls1 & ks1 & ks2 & ks1' & ks2' & c1 & c2 & Hc & Np & Nn & -> & F1 & F2 & _).
+    exists cn, h1, calls1. do 2 eexists. split; [exact Hc|].
+    split; [exists (c1 ++ c2); split; [reflexivity|split; [|discriminate]];
+            apply Forall_app; split; eapply fixup_is_fixup; eauto|].
     unfold nb_hard_pos, nb_hard_neg in *. rewrite !sp_call_mean by assumption.
     split; [reflexivity|]. split; [reflexivity|]. intro B. destruct (Hbl _ _ _ Hc B) as [-> ->]. split; now apply One.
   - destruct (sample_indices_repl_spec _ _ _ _ _ _ H) as (cn & h1 & calls1 & pi & ni & Hc & -> & _).
-    exists cn, h1, calls1. do 2 eexists. split; [exact Hc|]. split; [reflexivity|].
+    exists cn, h1, calls1. do 2 eexists. split; [exact Hc|].
+    split; [exists []; rewrite app_nil_r; split; [reflexivity|split; [constructor|reflexivity]]|].
     unfold nb_hard_pos, nb_hard_neg. simpl draw_mean.
     split; [reflexivity|]. split; [reflexivity|]. intro B. destruct (Hbl _ _ _ Hc B) as [-> ->]. split; now apply One.
 Qed.
@@ -760,6 +822,11 @@ Proof.
     + simpl. split; [apply RL|]. apply Forall_forall. intros x Hx. apply repeat_spec in Hx. lia.
 Qed.
 
+Lemma fix_empty_run n ks h : all_zero ks = false -> fix_empty n ks h = Ok (ks, h, []).
+Proof. intro H. unfold fix_empty. now rewrite H. Qed.
+Lemma all_zero_ones (l : list Q) : 0 < len l -> all_zero (repeat 1 (length l)) = false.
+Proof. unfold len. destruct l; simpl; [lia|reflexivity]. Qed.
+
 Definition id_hist (s : scores) (bl sp : bool) : list draw :=
   id_counts_hist s bl ++
   (if sp then [sp_id_draw (length (pos s)); sp_id_draw (length (neg s))]
@@ -788,6 +855,8 @@ Proof.
     erewrite bind_run by exact R1.
     erewrite bind_run by (apply one_over_run; lia).
     erewrite bind_run by exact R2.
+    erewrite bind_run by (apply fix_empty_run, all_zero_ones; lia).
+    erewrite bind_run by (apply fix_empty_run, all_zero_ones; lia).
     unfold ret. do 2 eexists. split; [reflexivity|]. cbn [pos_idx neg_idx s_easy_pos s_easy_neg].
     rewrite !repeat_idx_ones. split; [|auto].
     simpl app. apply Forall_app. split; [exact Ok0|]. constructor; [exact O1|constructor; [exact O2|constructor]].
